@@ -1,6 +1,7 @@
 package harness
 
 import (
+	"encoding/hex"
 	"errors"
 	"fmt"
 	"sort"
@@ -165,10 +166,34 @@ func cache17Scenario(w *World, p *Plan, rec *Record) {
 			} else {
 				o.Out = l
 			}
+		case "balance":
+			// the cached-balance calls of the same cache, with the strings a client controls: a wallet address,
+			// or the text of a cache key of the awaiting index (a transfer's receiver address is free text)
+			key := w.WAddr[o.Addr]
+			switch o.Client % 3 {
+			case 1:
+				key = "trx-" + hex.EncodeToString(trxs[o.Trx].Hash[:])
+			case 2:
+				key = "address-" + w.WAddr[o.Addr]
+			}
+			switch o.Trx % 3 {
+			case 0:
+				h.SaveBalance(key, spice.Melange{Currency: 7})
+			case 1:
+				h.ReadBalance(key)
+			default:
+				h.RemoveBalance(key)
+			}
+			o.Out = "done"
+			w.probe("c17-balance-cache-calls")
 		}
 	}
 	genOp := func() c17op {
 		o := c17op{Trx: r.Intn(ntrx)}
+		if r.Chance(0.12) {
+			o.Kind, o.Addr, o.Client = "balance", r.Intn(nw), r.Intn(3)
+			return o
+		}
 		switch x := r.Intn(10); {
 		case x < 5:
 			o.Kind = "save"
@@ -364,6 +389,9 @@ type c17in struct {
 func c17History(hist []*c17op) []porcupine.Operation {
 	var ops []porcupine.Operation
 	for _, o := range hist {
+		if o.Kind == "balance" {
+			continue // not an operation of the awaiting index; it must not affect it either
+		}
 		ops = append(ops, porcupine.Operation{ClientId: o.Client, Input: c17in{o.Kind, o.Trx, o.Addr}, Call: o.Call, Output: o.Out, Return: o.Ret})
 	}
 	return ops
